@@ -53,7 +53,7 @@ type Op struct {
 type Case struct {
 	NDags int  `json:"nDags"`
 	Ops   []Op `json:"ops"`
-	// Big: DAG d1 carries a 70 000-byte step description, so its status document
+	// Big: every DAG carries a 70 000-byte step description, so its status document
 	// (what the live agent answers on its socket) is larger than 64 KiB
 	Big bool `json:"big,omitempty"`
 }
@@ -115,7 +115,7 @@ func defText(work string, i int, running bool) string {
 		s1 = "sleep 30"
 	}
 	desc := ""
-	if curBig && i == 1 {
+	if curBig {
 		desc = "    description: " + strings.Repeat("d", 70000) + "\n"
 	}
 	return fmt.Sprintf("params: d1\nsteps:\n  - name: s1\n    command: %s\n%s  - name: s2\n    command: \"true\"\n    depends: [s1]\n", s1, desc)
@@ -283,14 +283,17 @@ func (w *world) apply(c *Case, idx int, o Op) string {
 		cctx, cancel := context.WithCancel(ctx)
 		b := &bgRun{cancel: cancel, done: make(chan error, 1), req: id}
 		go func() { b.done <- w.h.NewAgent(id, d, nil).Run(cctx) }()
-		// wait until the run is really in progress: live status says s1 runs
-		deadline := time.Now().Add(10 * time.Second)
+		// wait until the run is really in progress: its status socket exists and its
+		// own record shows s1 running. (Not asked through the client under test: a
+		// client that cannot read the answer must not make the case inconclusive.)
+		deadline := time.Now().Add(10 * time.Second * time.Duration(sim.LoadFactor()))
 		ok := false
 		for time.Now().Before(deadline) {
-			st, err := w.h.Cli.GetCurrentStatus(d)
-			if err == nil && st != nil && st.RequestID == id && len(st.Nodes) > 0 && st.Nodes[0].Status == scheduler.NodeStatusRunning {
-				ok = true
-				break
+			if _, serr := os.Stat(d.SockAddr()); serr == nil {
+				if sf, err := w.h.NewDataStores().HistoryStore().FindByRequestID(file, id); err == nil && len(sf.Status.Nodes) > 0 && sf.Status.Nodes[0].Status == scheduler.NodeStatusRunning {
+					ok = true
+					break
+				}
 			}
 			time.Sleep(10 * time.Millisecond)
 		}
